@@ -384,10 +384,12 @@ def struct_cases(draw, tier):
     else:
         c['trace'] = {v: c['trace'][v] for v in c['vars']}
     c['outfield'] = draw(st.sampled_from([None, None, 'value', 'value']))
+    # online monitors: reset() before the first update, or the whole input once, reset(), and the whole input again
+    c['reset'] = draw(st.sampled_from([None, None, 'first', 'again']))
     return c
 
 
-def run_struct(kind, f, vs, data, paths, structured, sem=None, objio=None, outfield=None):
+def run_struct(kind, f, vs, data, paths, structured, sem=None, objio=None, outfield=None, reset=None):
     from ..structs import Msg, PATHS
     dense = kind.startswith('ct')
     base = {'dt_off': 'dt_off', 'dt_on': 'dt_on', 'dt_on_past': 'dt_on', 'ct_off': 'ct_off', 'ct_on': 'ct_on'}[kind]
@@ -438,6 +440,11 @@ def run_struct(kind, f, vs, data, paths, structured, sem=None, objio=None, outfi
                 ds = {'time': [float(i) for i in range(n)]}
                 ds.update(cols)
                 return ('ok', spec.evaluate(ds))
+            if reset == 'first':
+                spec.reset()
+            elif reset == 'again':
+                [spec.update(i, [(k, col[i]) for k, col in cols.items()]) for i in range(n)]
+                spec.reset()
             return ('ok', [spec.update(i, [(k, col[i]) for k, col in cols.items()]) for i in range(n)])
         sig = to_time({v: data[v] for v in vs}, Q)
         if structured:
@@ -452,9 +459,18 @@ def run_struct(kind, f, vs, data, paths, structured, sem=None, objio=None, outfi
         mid = stamps_all[len(stamps_all) // 2]
         first = [[n_, [p for p in s if p[0] <= mid]] for n_, s in args]
         rest = [[n_, [p for p in s if p[0] > mid]] for n_, s in args]
-        out = list(spec.update(*first))
+        def copy(a):
+            return [[n_, [list(p) for p in s]] for n_, s in a]
+        if reset == 'first':
+            spec.reset()
+        elif reset == 'again':
+            spec.update(*copy(first))
+            if any(s for _n, s in rest):
+                spec.update(*copy(rest))
+            spec.reset()
+        out = list(spec.update(*copy(first)))
         if any(s for _n, s in rest):
-            out += list(spec.update(*rest))
+            out += list(spec.update(*copy(rest)))
         return ('ok', out)
     except RecursionError:
         raise
@@ -474,12 +490,15 @@ def check_struct(case):
     if kind == 'dt_on_past' and F.horizon(f) is None:
         return DISCARD('unbounded', labels)
     data = data_of(case)
-    plain = run_struct(kind, f, vs, data, case['paths'], False)
+    rs = case.get('reset') if kind in ('dt_on', 'dt_on_past', 'ct_on') else None
+    if rs:
+        labels.append('reset:' + rs)
+    plain = run_struct(kind, f, vs, data, case['paths'], False, reset=rs)
     if plain[0] != 'ok':
         return DISCARD('plain-raises(other lanes):' + plain[1], labels)
-    st_ = run_struct(kind, f, vs, data, case['paths'], True, outfield=case.get('outfield'))
+    st_ = run_struct(kind, f, vs, data, case['paths'], True, outfield=case.get('outfield'), reset=rs)
     desc = 'monitor %s\nspec over plain variables: %s\nfield paths: %s%s\ndata: %s' % (kind, show(f), {v: '.'.join(case['paths'][v]) for v in vs},
-                                                                                       '; the verdict is written to res.%s' % case['outfield'] if case.get('outfield') else '', {v: data[v] for v in vs})
+                                                                                       ('; the verdict is written to res.%s' % case['outfield'] if case.get('outfield') else '') + ('; reset() before the first update' if rs == 'first' else '; the input once, reset(), the input again' if rs == 'again' else ''), {v: data[v] for v in vs})
     if st_[0] != 'ok':
         return FAIL('crash:struct:%s:%s@%s' % (kind, st_[1], st_[4].split(':')[-1]), desc + '\nwith the variables as fields of Msg objects: raised %s: %s at %s\nplain variables: %r' % (
             st_[1], st_[3], st_[4], plain[1]), labels)
